@@ -300,6 +300,15 @@ impl<const N: u32> PxE1<{ N }> {
             ui_a = ui_a.wrapping_neg(); // A is now |A|.
         }
 
+        if ui_a >= 0x_7FFF_A000 {
+            // |A| >= 2^31 saturates
+            return if sign {
+                i32::min_value()
+            } else {
+                i32::max_value()
+            };
+        }
+
         let i_z = convert_px1bits_to_u32(ui_a);
         u32_with_sign(i_z, sign) as i32
     }
